@@ -152,7 +152,10 @@ def execute(plan):
         shp_arg = list(shp)                                  # e.g. the shape as it comes out of a JSON configuration
     elif isinstance(shp, tuple) and plan.get("shape_form") == "np":
         shp_arg = tuple(np.int64(x) for x in shp)            # e.g. computed with numpy
-    gen = JakesSampleGenerator(Fd, Ts, L, shape=shp_arg, RS=rs)
+    Fd_arg = int(Fd) if (float(Fd).is_integer() and plan["rs_seed"] % 2) else Fd                    # 100 instead of 100.0
+    Ts_arg = int(Ts) if (float(Ts).is_integer() and plan["rs_seed"] % 2) else Ts
+    L_arg = np.int64(L) if plan["rs_seed"] % 3 == 0 else L
+    gen = JakesSampleGenerator(Fd_arg, Ts_arg, L_arg, shape=shp_arg, RS=rs)
     phi = np.array(gen._phi_l, copy=True)      # "the generator's fixed random phases" (named by the property itself)
     psi = np.array(gen._psi_l, copy=True)
     base = () if shp is None else ((shp,) if isinstance(shp, int) else tuple(shp))
@@ -202,7 +205,7 @@ def execute(plan):
         try:
             with op_time_limit(60.0):
                 if o == "skip":
-                    gen.skip_samples_for_next_generation(op["n"])
+                    gen.skip_samples_for_next_generation(np.int64(op["n"]) if step % 3 == 1 else op["n"])        # counts often come out of numpy
                     k += op["n"]
                     log.add("skip", op["n"])
                     if op["n"] >= 10 ** 6:
@@ -378,7 +381,7 @@ def execute(plan):
                     if n is None:
                         gen.generate_more_samples()
                     else:
-                        gen.generate_more_samples(n)
+                        gen.generate_more_samples(np.int64(n) if step % 4 == 1 else n)
                     s = gen.get_samples()
                     gens += 1
                     if np.shape(s) != base + (nn,):
